@@ -9,6 +9,7 @@
 -/
 import ASV.Drv.J
 import ASV.Spec.Results
+import ASV.Model.ResultsModules
 namespace ASV.Drv.C11
 open Lean ASV ASV.Drv ASV.Results
 
@@ -79,8 +80,8 @@ def handle (j : Json) : R Json := do
   | "hmmresult" =>
     return reply input (HMMResult.fromJson input) HMMResult.toJson HMMResult.valid
   | "nrpspks" =>
-    let names ← listOf asStr (fldD j "classifiable" (jArr []))
-    let rules : ModRules := ⟨fun n => names.contains n, fun _ _ => true⟩
+    -- C14's transcription of classify / add_component over the regenerated tables
+    let rules : ModRules := c14Rules
     return reply input (NrpsPks.fromJson rules ctx input) NrpsPks.toJson (NrpsPks.valid rules ctx)
       [("may_reuse", toJson (Spec.nrpsPksMayReuse ctx input))]
   | "hmmdet" =>
